@@ -198,6 +198,21 @@ def gen_cases(ctx):
     yield {"kind": "read", "fmt": "tum", "variant": "p", "text": tf.BOM + "# c\r\n" + "1.5 2 3 4 0.1 0.2 0.3 0.9\r\n", "label": "ok", "corpus": "bom-crlf"}
     yield {"kind": "read", "fmt": "euroc", "variant": "p", "text": "#ts,x\n1403636580838555648,1,2,3,0.5,0.1,0.2,0.3,9,9\n", "label": "ok", "corpus": "euroc-ns"}
     yield {"kind": "read", "fmt": "kitti", "variant": "h", "text": " ".join(str(k) for k in range(1, 13)) + "\n", "label": "ok", "corpus": "kitti-slots"}
+    # long files (beyond the block size of any block-wise conversion: 1024, 4096) whose LAST row is defective: a row holding only
+    # its first field, a short row, a long row — every row counts, also row 4097
+    rowsrc = {"tum": lambda k: f"{k}.5 {k} 2 3 0 0 0 1", "kitti": lambda k: " ".join(["1 0 0", str(k), "0 1 0 2 0 0 1 3"]),
+              "euroc": lambda k: f"{1403636580000000000 + k * 5000000},{k},2,3,1,0,0,0,0,0,0"}
+    for fmt in ("tum", "kitti", "euroc"):
+        dl = "," if fmt == "euroc" else " "
+        for nrows in ((1025, 4097) if not ctx.thorough else (1025, 2049, 4097, 8193)):
+            body = [rowsrc[fmt](k) for k in range(nrows - 1)]
+            good_last = rowsrc[fmt](nrows - 1)
+            for label, last in (("short-row", good_last.split(dl)[0]), ("short-row", dl.join(good_last.split(dl)[:-1])),
+                                ("long-row", good_last + dl + "7"), ("ok", good_last)):
+                if nrows != 4097 and label != "short-row":
+                    continue
+                yield {"kind": "read", "fmt": fmt, "variant": "p" if nrows == 4097 else "h", "text": "\n".join(body + [last]) + "\n",
+                       "label": label, "corpus": f"long-file-last-row-{label}"}
     n_ok = 8000 if th else 3000 if ctx.extended else 1500
     n_bad = 12000 if th else 5000 if ctx.extended else 2500
     sizes = [1, 2, 3, 4, 7, 8, 9, 15, 16, 17, 31, 32, 33, 63, 64, 65, 127, 128, 129, 255, 256, 257] + ([1023, 1024, 1025, 4095, 4096, 4097] if th else [])
